@@ -703,31 +703,45 @@ def ob_jacobian(cfg, seed):
                 r, s_, N, dN = R(FeArray.asfearray(eps6), ufe, z, Cm, dt)
                 J, D = J_(ufe, z, N, dN, Cm, dt)
                 J, D = np.asarray(J), np.asarray(D)
-                h = 1e-6
-                Jfd, Dfd = np.zeros_like(J), np.zeros_like(D)
                 fd = lambda f, hh: (f(hh) - f(-hh)) / (2 * hh)
-                for j in range(nu):
-                    d = np.zeros(nu)
-                    d[j] = 1.0
-                    # the rate law is singular at zero flow: its column is differentiated with a step relative to the multiplier itself
-                    sc_j = np.where(sel, np.maximum(np.abs(u[..., nz]), 1e-12) * 1e3, 1.0)[..., None] if (has_y and j == nz and cfg.get("rate")) else 1.0
-                    f = lambda hh: np.asarray(R(FeArray.asfearray(eps6), FeArray.asfearray(u + hh * sc_j * d), z, Cm, dt)[0])
-                    col = (4 * fd(f, h / 2) - fd(f, h)) / 3
-                    Jfd[..., j] = col / sc_j if not np.isscalar(sc_j) else col
-                for j in range(6):
-                    d = np.zeros(6)
-                    d[j] = 1.0
-                    f = lambda hh: np.asarray(R(FeArray.asfearray(eps6 + hh * d), ufe, z, Cm, dt)[0])
-                    Dfd[..., j] = (4 * fd(f, h / 2) - fd(f, h)) / 3
-                # compare row-wise on the scale of each row (strain rows ~1, the yield row ~C)
+
+                def fd_tables(h):
+                    Jfd, Dfd = np.zeros_like(J), np.zeros_like(D)
+                    for j in range(nu):
+                        d = np.zeros(nu)
+                        d[j] = 1.0
+                        # the rate law is singular at zero flow: its column is differentiated with a step relative to the multiplier itself
+                        sc_j = np.where(sel, np.maximum(np.abs(u[..., nz]), 1e-12) * 1e3, 1.0)[..., None] if (has_y and j == nz and cfg.get("rate")) else 1.0
+                        f = lambda hh: np.asarray(R(FeArray.asfearray(eps6), FeArray.asfearray(u + hh * sc_j * d), z, Cm, dt)[0])
+                        col = (4 * fd(f, h / 2) - fd(f, h)) / 3
+                        Jfd[..., j] = col / sc_j if not np.isscalar(sc_j) else col
+                    for j in range(6):
+                        d = np.zeros(6)
+                        d[j] = 1.0
+                        f = lambda hh: np.asarray(R(FeArray.asfearray(eps6 + hh * d), ufe, z, Cm, dt)[0])
+                        Dfd[..., j] = (4 * fd(f, h / 2) - fd(f, h)) / 3
+                    return Jfd, Dfd
+                with np.errstate(all="ignore"):
+                    (Jfd, Dfd), (Jfd2, Dfd2) = fd_tables(1e-6), fd_tables(4e-6)
+                # compare row-wise on the scale of each row (strain rows ~1, the yield row ~C); a point where the two finite-difference tables (steps h and 4h)
+                # disagree is one where the residual is not smooth enough for the oracle (e.g. next to the apex of a pressure-dependent surface): it leaves the experiment
+                sel_pt = sel.copy()
+                for A_, B_ in ((Jfd, Jfd2), (Dfd, Dfd2)):
+                    sc = np.maximum(np.abs(A_).max(axis=-1, keepdims=True), 1.0)
+                    with np.errstate(all="ignore"):
+                        dev = (np.abs(A_ - B_) / sc).max(axis=(-1, -2))
+                    sel_pt &= np.isfinite(dev) & (dev < 1e-7)
                 for name, A_, B_ in (("dr/du", J, Jfd), ("dr/deps", D, Dfd)):
+                    if not sel_pt.any():
+                        break
                     sc = np.maximum(np.abs(B_).max(axis=-1, keepdims=True), 1.0)
-                    e = (np.abs(A_ - B_) / sc)[sel].max()
+                    e = (np.abs(A_ - B_) / sc)[sel_pt].max()
                     worst = max(worst, float(e))
                     if e > 1e-6:
-                        idx = np.unravel_index(np.argmax((np.abs(A_ - B_) / sc) * sel[..., None, None]), A_.shape)
+                        idx = np.unravel_index(np.argmax(np.where(sel_pt[..., None, None], np.abs(A_ - B_) / sc, 0.0)), A_.shape)
                         raise Refuted(f"{cfg_name(cfg)} step {k}: {name}[{idx[2]},{idx[3]}] = {A_[idx]:.6g}, finite differences of the residual give {B_[idx]:.6g} (slots {({str(kk): (v.start, v.stop) for kk, v in b.layout.slots.items()})})",
                                       cex=dict(config=cfg, step=k, entry=[int(idx[2]), int(idx[3])]), signature=f"jacobian:{cfg_name(cfg)}", replay=dict(confirmed=True, rel_err=float(e)))
+                sel = sel_pt
                 checked += int(sel.sum())
         z = FeArray.asfearray(np.where(ok[..., None], np.asarray(znew), np.asarray(z)))
         P[~ok, k:] = P[~ok, k - 1][:, None, :]
